@@ -40,7 +40,10 @@ func normalizeIdentity(id *org.Identity) {
 	}
 	code := strings.ToUpper(id.Code.String())
 	code = tax.IdentityCodeBadCharsRegexp.ReplaceAllString(code, "")
-	code = strings.TrimPrefix(code, string(l10n.IT))
+	for strings.HasPrefix(code, string(l10n.IT)) {
+		// more than once if the prefix was typed more than once
+		code = strings.TrimPrefix(code, string(l10n.IT))
+	}
 	id.Code = cbc.Code(code)
 }
 
